@@ -304,7 +304,8 @@ def _is_gt(e: Event, top: Aff, stats_root: str, idx: int, taken: bool) -> bool:
 
 
 def _one_inc(ctx: Ctx, fn: FuncInfo, mode: str, label: str, incs: List[Event], it: Interp, s: State, when: str) -> None:
-    okk = len(incs) == 1 and incs[0].aug is not None and incs[0].aug[0] == "Add" and incs[0].aug[1] == ONE
+    okk = len(incs) == 1 and ((incs[0].aug is not None and incs[0].aug[0] == "Add" and incs[0].aug[1] == ONE)
+                              or (isinstance(incs[0].value, Aff) and isinstance(incs[0].old, Aff) and (incs[0].value - incs[0].old) == ONE))
     if okk:
         ctx.ok("R-COUNTER", f"{mode}: {label} += 1 exactly once when {when}", sample={"line": incs[0].line})
     else:
